@@ -152,7 +152,7 @@ def norm(
         abs_ = absolute(x, constant=constant)
         out = op(abs_, axis=axis, keepdims=keepdims)
 
-        in_ndim = abs_.creator.variables[0].ndim
+        in_ndim = abs_.ndim  # (`abs_.creator` is None when graph-tracking is off)
 
         if (axis is None and ord is not None and in_ndim == 2) or (
             hasattr(axis, "__len__") and len(axis) > 1
